@@ -59,6 +59,10 @@ def malformed(rng):
     if rng.random() < .08:
         return nested(rng)
     text, body, nl = wellformed(rng)
+    if rng.random() < .05:
+        # an envelope without a signed message: the signature block directly after the first line (or after the headers)
+        head = ['-----BEGIN PGP SIGNED MESSAGE-----' + rng.choice(['', '', ' ', '\t'])] + rng.choice([[], [''], ['Hash: SHA1'], ['Hash: SHA1', '']])
+        return nl.join(head + sig_block(rng, nl)) + rng.choice([nl, ''])
     ls = text.split(nl)
     k = rng.random()
     i = rng.randrange(len(ls))
@@ -222,6 +226,18 @@ def run(ctx):
     _BY.update(by)
     bad = ctx.compare('corr:unsign', [(fn, [t]) for fn, t in jobs], impl_lookup)
     _BY.clear()
+    # a few texts of every class of envelope, all of them asked again at the end and in the other environments:
+    # armor that reads but holds no signed message, an envelope whose armor does not read, a message that reads
+    cls = {'armor without a signed message': [t for t in texts if by[('pgp_search', t)] == [] and by[('is_signed', t)]],
+           'envelope that does not read': [t for t in texts if by[('pgp_search', t)] is None and by[('is_signed', t)]],
+           'message that reads': [t for t in texts if by[('pgp_search', t)] not in (None, []) and by[('is_signed', t)]]}
+    begin = '-----BEGIN PGP SIGNED MESSAGE-----'
+    sigb = '\n'.join(sig_block(rng, '\n', headers=[]))
+    cls['armor without a signed message'] = [begin + '\n' + sigb + '\n', begin + '\n\n' + sigb, (begin + '\n' + sigb + '\n').replace('\n', '\r\n'),
+                                             begin + ' \nHash: SHA512\n\nbody\n' + sigb + '\n'] + cls['armor without a signed message']
+    ctx.stream('prop:statement')['envelope_classes'] = {k: len(v) for k, v in cls.items()}
+    for k, v in cls.items():
+        bad += ctx.compare('corr:unsign:' + k, [(fn, [t]) for t in v[:70] for fn in ('remove_signature', 'is_signed', 'pgp_search')], impl)
 
     fails = []
     st = ctx.stream('prop:statement')
@@ -259,6 +275,22 @@ def run(ctx):
             r0 = res[0] if isinstance(res[0], str) else repr(res[0])
             fails.append((t, 'well-formed message of %d characters (%s line ends): the body is not what is returned (returned %d characters starting %r)'
                           % (len(t), 'CRLF' if nl != '\n' else 'LF', len(r0), r0[:60])))
+    # white space around a well-formed message (blank lines before it, after it), of any amount: still the signed body
+    for text, body, nl in wf[:ctx.n(60, 400)]:
+        for n in (1, 3, 100, 980, 1000, 1023, 1024, 1025, 1500, 5000, 70000):
+            for pre, post in ((n, 0), (0, n), (n, n)):
+                ws = rng.choice(['\n', ' ', nl, '\t', ' \n'])
+                t = (ws * pre)[:pre] + text + (ws * post)[:post]
+                if pre and t[pre - 1] != '\n':
+                    t = t[:pre - 1] + '\n' + t[pre:]
+                r = call(unsign.remove_signature, t)
+                sgn = call(lambda x: bool(unsign.is_signed(x)), t)
+                st['cases'] += 1
+                ctx.evaluations += 1
+                ok = (r == body) if nl == '\n' else (r in (body, body + '\r'))
+                if not ok or sgn is not True:
+                    fails.append((t, 'well-formed message with %d white-space characters before it and %d after: is_signed %r, body %r, returned %.80r'
+                                  % (pre, post, sgn, body, r)))
     # through the paragraph parser: the flag means "remove the signature, then parse", whatever stands before the envelope
     pp = [w[0] for w in wf[:ctx.n(500, 5000)]]
     pp += [pre + t for t in pp[:200] for pre in ('\n', '\n\n', ' \n', '\r\n')] + nest[:100] + mal[:300]
